@@ -207,12 +207,15 @@ def main(argv=None):
     # confirm, minimise
     processed += 1
     r2 = runmod.execute(profile, cfg=d["cfg"], events=events, time_limit=min(120, profile.run_time_limit))
+    witness_only = False
     if not runmod.same_failure(r2.violation, v):
-      print("HARNESS-NONDETERMINISM run=%s seed=%s first=%s second=%s" % (
-        d["run_index"], d["seed"], v, r2.violation))
-      exit_code = max(exit_code, 2)
-      continue
-    if not args.no_minimise:
+      if not profile.observed_difference_is_witness:
+        print("HARNESS-NONDETERMINISM run=%s seed=%s first=%s second=%s" % (
+          d["run_index"], d["seed"], v, r2.violation))
+        exit_code = max(exit_code, 2)
+        continue
+      witness_only = True       # C30: the processes of the second execution happened to agree
+    if not args.no_minimise and not witness_only:
       events, nrep = runmod.minimise(profile, d["cfg"], events, v,
                                      budget_s=profile.minimise_budget)
       r3 = runmod.execute(profile, cfg=d["cfg"], events=events, time_limit=min(120, profile.run_time_limit))
